@@ -684,6 +684,12 @@ impl ParserListener for Screen {
                 self.insert_characters(Some(char_width as u32));
             }
 
+            // Only a combining mark may need to materialise its target cell.
+            let default = if char_width == 0 {
+                Some(self.default_char())
+            } else {
+                None
+            };
             let line = self
                 .buffer
                 .entry(self.cursor.y)
@@ -706,18 +712,19 @@ impl ParserListener for Screen {
                 }
             } else if char_width == 0 && is_combining_mark(char) {
                 if self.cursor.x > 0 {
-                    if let Some(last) = line.get_mut(&(self.cursor.x - 1)) {
-                        last.data = last.data.nfc().collect::<String>() + &char.to_string();
-                    }
+                    let last = line
+                        .entry(self.cursor.x - 1)
+                        .or_insert_with(|| default.unwrap_or_default());
+                    last.data = last.data.nfc().collect::<String>() + &char.to_string();
                 } else if self.cursor.y > 0 {
-                    if let Some(last) = self
+                    let last = self
                         .buffer
-                        .get_mut(&(self.cursor.y - 1))
-                        .and_then(|l| l.get_mut(&(self.columns - 1)))
-                    {
-                        last.data = last.data.nfc().collect::<String>() + &char.to_string();
-                        self.dirty.insert(self.cursor.y - 1);
-                    }
+                        .entry(self.cursor.y - 1)
+                        .or_insert_with(HashMap::new)
+                        .entry(self.columns - 1)
+                        .or_insert_with(|| default.unwrap_or_default());
+                    last.data = last.data.nfc().collect::<String>() + &char.to_string();
+                    self.dirty.insert(self.cursor.y - 1);
                 }
             } else {
                 continue; // Unprintable character or doesn't advance the cursor.
